@@ -21,8 +21,8 @@ pub fn keys_for(rev: &HashMap<char, FKey>, text: &str) -> Option<Vec<FKey>> {
 pub fn specs() -> Vec<CfgSpec> {
     let f = |o: u16| CfgSpec::new(Lay::Probhat, O_FSUGG | O_NUMPAD | o);
     vec![
-        f(0), f(O_TKAR), f(O_ENG), f(O_SQ), f(O_ANSI), f(O_TKAR | O_ENG | O_SQ), f(O_TKAR | O_ENG | O_SQ | O_ANSI), f(O_ENG | O_SQ),
-        f(O_KARORDER), f(O_KARORDER | O_ENG | O_TKAR), f(O_VOWEL | O_CHANDRA | O_REPH | O_ENG),
+        f(0), f(O_TKAR | O_PSUGG), f(O_ENG), f(O_SQ | O_PSUGG), f(O_ANSI), f(O_TKAR | O_ENG | O_SQ), f(O_TKAR | O_ENG | O_SQ | O_ANSI), f(O_ENG | O_SQ),
+        f(O_KARORDER | O_PSUGG), f(O_KARORDER | O_ENG | O_TKAR), f(O_VOWEL | O_CHANDRA | O_REPH | O_ENG),
     ]
 }
 
